@@ -343,6 +343,20 @@ ADDENDA["C04"] = ADDENDA.get("C04", " Also:") + " Lexer tokenize overrides hand 
 ADDENDA["C08"] = ADDENDA.get("C08", " Also:") + " A select in FROM is planned clause for clause as written (672 inner x outer clause combinations)."
 ADDENDA["C06"] = ADDENDA.get("C06", " Also:") + " Qualified names are columns whatever their last part spells; f(x FROM y) passes x as an expression; + is kept by the generic operator (SQLAlchemy's __add__ concatenates over string-typed operands)."
 
+ADDENDA["C01"] = ADDENDA.get("C01", " Also:") + " Fields the grammars fill from numbers are not presence-tested by truthiness in printers."
+ADDENDA["C02"] = ADDENDA.get("C02", " Also:") + " A lookup keyed by text derived from a token must be guarded."
+ADDENDA["C03"] = ADDENDA.get("C03", " Also:") + " A compound operator that arrives as two tokens builds the compound operation; parentheses are kept around unary / BETWEEN operands too."
+ADDENDA["C05"] = ADDENDA.get("C05", " Also:") + " No parser method re-enters the driver on self."
+ADDENDA["C07"] = ADDENDA.get("C07", " Also:") + " get_string renders with the constants in the text (call bound to get_exec_params' signature)."
+ADDENDA["C09"] = ADDENDA.get("C09", " Also:") + " CTE results are written and read under the same spelling (plan_cte / get_integration_select_step interpreted)."
+ADDENDA["C10"] = ADDENDA.get("C10", " Also:") + " Re-runs C13's walker matrix incl. renderer-reads-visited."
+ADDENDA["C13"] = " Also: only child-carrying fields are visited; the renderer takes children only from fields the walker maintains."
+ADDENDA["C14"] = " Also: re-runs C10's catalog rules; a fully qualified column keeps its table through plan_join_tables' normalisation."
+ADDENDA["C16"] = ADDENDA.get("C16", " Also:") + " tokens_to_string leaves the tokens unchanged."
+ADDENDA["C18"] = ADDENDA.get("C18", " Also:") + " No printer / comparison method mentions object identity."
+ADDENDA["C19"] = ADDENDA.get("C19", " Also:") + " Token objects are not changed on the way (C16's table)."
+ADDENDA["C20"] = ADDENDA.get("C20", " Also:") + " No hash() of text / id() / clock / random reaches a result."
+
 NA_PENDING = "check under construction in this session; not claimed until its rule module is committed"
 
 
